@@ -156,6 +156,12 @@ def run(scn):
 def _run(scn, root):
     t = cs.run_world(scn, root=root)
     viol = judge(t)
+    if t.second is not None:
+        for v in judge(t.second):
+            v['key'] += '|second-call'
+            v['facts']['call'] = 2
+            v['message'] = 'second compile() on the same compiler: ' + v['message']
+            viol.append(v)
     w = t.world
     if scn.get('realfs') and root and isinstance(t.R, dict) and not w.fired and t.escaped is None:
         # end to end over the real writer: what is reported compiled/borrowed is on disk, verbatim
